@@ -25,7 +25,7 @@ fn is_fatal_ape(b: u8) -> bool {
     b == 0xF4 || (0xF5..=0xFC).contains(&b)
 }
 
-// @harness id=full_alpide_decode_step props=C13,C04 kind=full tier=quick fns=LaneAlpideFrameAnalyzer::decode,LaneAlpideFrameAnalyzer::store_bunch_counter,AlpideFrameChipData::store_bc,LaneAlpideFrameAnalyzer::new stubs=alloc::fmt::format
+// @harness id=full_alpide_decode_step props=C13,C14,C04 kind=full tier=quick fns=LaneAlpideFrameAnalyzer::decode,LaneAlpideFrameAnalyzer::store_bunch_counter,AlpideFrameChipData::store_bc,LaneAlpideFrameAnalyzer::new stubs=alloc::fmt::format
 // One decoder step from an arbitrary decoder state on an arbitrary byte == the ALPIDE decoding rules.
 // Hit content (bytes consumed as data/skip bytes) never influences the successor state.
 #[kani::proof]
@@ -42,9 +42,19 @@ fn full_alpide_decode_step() {
     let (hs, lc, sk, nb, fatal) = (a.is_header_seen, a.last_chip_id, a.skip_n_bytes, a.next_is_bc, a.lane_status_fatal);
     let trailers0 = a.alpide_stats.readout_flags().chip_trailers_seen();
     kani::assume(trailers0 < 1000);
+    let flags0 = *a.alpide_stats.readout_flags();
+    kani::assume(flags0.busy_violations() < 1000 && flags0.data_overrun() < 1000 && flags0.transmission_in_fatal() < 1000
+        && flags0.flushed_incomplete() < 1000 && flags0.strobe_extended() < 1000 && flags0.busy_transitions() < 1000);
     let b: u8 = kani::any();
     a.decode(b);
     let trailers = a.alpide_stats.readout_flags().chip_trailers_seen();
+    // the flag counters change only at a chip trailer, and then exactly as ReadoutFlags::log (full_readout_flags_log)
+    // prescribes for the WHOLE trailer byte
+    let mut flags_exp = flags0;
+    if sk == 0 && !nb && !(!hs && b == 0) && (0xB0..=0xBF).contains(&b) {
+        flags_exp.log(b);
+    }
+    assert!(*a.alpide_stats.readout_flags() == flags_exp, "[C13][C14] the readout flags of a chip trailer are logged from the whole trailer byte, and nothing else changes the flag counters");
     if sk > 0 {
         // a skipped (hit payload) byte: only the skip count changes, whatever the byte
         assert!(a.skip_n_bytes == sk - 1 && a.is_header_seen == hs && a.last_chip_id == lc && a.next_is_bc == nb
